@@ -237,7 +237,10 @@ SE2Base<_Derived>::log(OptJacobianRef J_t_m) const
   {
     // Euler
     A = sin_theta / theta;
-    B = (Scalar(1) - cos_theta) / theta;
+    // 1-cos(theta) evaluated without cancellation
+    B = (cos_theta > Scalar(0)) ?
+          sin_theta * sin_theta / ((Scalar(1) + cos_theta) * theta) :
+          (Scalar(1) - cos_theta) / theta;
   }
 
   const Scalar den = Scalar(1) / (A*A + B*B);
